@@ -188,11 +188,20 @@ fn readback(ctx: &mut Ctx, p: &Program, ser_label: &'static str, bytes: &[u8], e
 
 /// A program sized so that the total lands near the 16-bit boundary.
 fn gen_big_program(rng: &mut crate::prng::Rng) -> Program {
+    let target = 65_400 + 4 * rng.usize(39); // <= 65 552
+    let p = gen_program(rng, 2, false);
+    let seals = p.seals.clone();
+    big_program_exact(rng, target, &seals)
+}
+
+/// A program whose serialisation is exactly `target` bytes (a multiple of four, <= 65 552) with the
+/// given seals: a few small typed attributes, then raw filler.
+pub fn big_program_exact(rng: &mut crate::prng::Rng, target: usize, seals: &[SealSpec]) -> Program {
     let mut p = gen_program(rng, 2, false);
+    p.seals = seals.to_vec();
     p.attrs.retain(|a| matches!(a, AttrSpec::Typed(..)));
     let seal_len: usize = p.seals.iter().map(|s| match s { SealSpec::Sha1 => 24, SealSpec::Sha256 => 36, SealSpec::Fp => 8 }).sum();
     let base: usize = 20 + p.attrs.iter().map(|a| 4 + (a.wire_value(&p.tid).len() + 3) / 4 * 4).sum::<usize>() + seal_len;
-    let target = 65_400 + 4 * rng.usize(39); // <= 65 552
     let mut left = target.saturating_sub(base) & !3usize;
     let mut t = 0xc100u16;
     while left >= 4 {
@@ -262,6 +271,22 @@ pub fn run(ctx: &mut Ctx) {
         let p = gen_big_program(&mut rng);
         check_program(ctx, &p);
         ctx.count("near-64k-programs");
+    }
+    // every total 65 500..=65 552 x every sealing set: the last attributes straddle offset 65 536
+    {
+        let mut gi = 0u64;
+        for total in (65_500..=65_552usize).step_by(4) {
+            for seals in seal_sets.iter() {
+                gi += 1;
+                if !ctx.mine(gi) {
+                    continue;
+                }
+                let mut r2 = ctx.rng("exact-64k", gi);
+                let p = big_program_exact(&mut r2, total, seals);
+                check_program(ctx, &p);
+                ctx.count("exact-64k-boundary-programs");
+            }
+        }
     }
     ctx.require("typed-readback-equal", 10_000);
     ctx.require("sealed-validates", 5_000);
